@@ -176,6 +176,12 @@ func (x *Ex) genFuncsMore(body *LeanFile) {
 		{"internal/domutil", "", "GetDisplayStyle"},
 		{"internal/domutil", "", "IsProbablyVisible"},
 	})
+	// the converter's byline / empty-container tests (Model/Candidates.lean)
+	x.bodyGroup(body, "candidateBodies", []string{"C20"}, [][3]string{
+		{"internal/converter", "", "isByline"},
+		{"internal/converter", "", "isValidByline"},
+		{"internal/converter", "", "isElementWithoutContent"},
+	})
 	// reference resolution (Model/AbsURL.lean)
 	x.bodyGroup(body, "urlBodies", []string{"C06", "C16"}, [][3]string{
 		{"internal/stringutil", "", "CreateAbsoluteURL"},
